@@ -626,6 +626,11 @@ class Oracle:
             return None, "C20:definition-line-unknown"
         if r is self.root and self.declared_global_below(x) and (got_line is None or got_line in want):
             return None, "global-declaration-not-honoured"
+        if r is not None and not isinstance(r, str) and got_line is None \
+                and "global" in self.facts.binding_kinds(self.node_of(r), x):
+            # a global declaration in the scope that binds x itself (at module level, in a class body): the
+            # _Global handler stores an AssignedName without module, which has no location
+            return None, "global-declaration-not-honoured"
         if got_line is not None and r is not None and not isinstance(r, str):
             # the line of the assigned VALUE of a statement whose target is on an earlier line
             for s in self.facts.block_statements(self.node_of(r)):
